@@ -270,15 +270,26 @@ def kf17_output_is_leader(spec, problems):
                 outs.add(e.out.name)
     if not outs or not problems:
         return None
+    # later Einsums of a cascade that read the empty result (directly or not) are wrong too
+    down = set()
+    for e in spec.exprs:
+        if e.out.name not in outs and any(a.name in outs or a.name in down for a in e.inputs()):
+            down.add(e.out.name)
+    seen = False
     for p in problems:
         k = p.get("kind")
-        if k == "value-mismatch" and p.get("n_got") == 0 and not p.get("n_extra"):
+        t = p.get("tensor")
+        if k == "value-mismatch" and t in outs and p.get("n_got") == 0 and not p.get("n_extra"):
+            seen = True
+            continue
+        if k == "value-mismatch" and t in down:
             continue
         if k in ("differs-from-unmapped", "differs-from-unpartitioned") and \
-                p.get("tensor") in outs:
+                (t in outs or t in down):
+            seen = seen or t in outs
             continue
         return None
-    return "KF-17"
+    return "KF-17" if seen else None
 
 
 def classify_plain(spec, problems):
